@@ -39,8 +39,8 @@ import (
 func init() {
 	stub := []string{"host.Host/network/streams (simhost)", "pb.MessageSender (level A: every RPC parks)", "remote peers (honest scripted answers, drawn failures)", "datastore (simds: operations park)", "crypto/rand (constant per run)"}
 	sim.Register(&sim.Scenario{Prop: "C14", Name: "ipfsdht", Weight: 4, Run: runC14DHT,
-		Real: []string{"dht.New / IpfsDHT.Close", "rtPeerLoop, fixLowPeers loop, persistRTPeersInPeerStore, network subscriber", "rtrefresh.RtRefreshManager (Start/loop/Refresh/Close)", "records.ProviderManager, records.ValueStore (GC loops, Close) through the DHT", "lookups, PutValue/GetValue/SearchValue/Provide/FindProviders/FindPeer in flight", "handleNewStream handlers in flight (server mode)"},
-		Stub: stub,
+		Real:   []string{"dht.New / IpfsDHT.Close", "rtPeerLoop, fixLowPeers loop, persistRTPeersInPeerStore, network subscriber", "rtrefresh.RtRefreshManager (Start/loop/Refresh/Close)", "records.ProviderManager, records.ValueStore (GC loops, Close) through the DHT", "lookups, PutValue/GetValue/SearchValue/Provide/FindProviders/FindPeer in flight", "handleNewStream handlers in flight (server mode)"},
+		Stub:   stub,
 		Faults: append([]string{"fault_rpc_error", "probe_close_during_refresh", "probe_close_handler_inflight", "probe_close_lookupcheck_inflight", "probe_mode_switch", "probe_cfg_providers_disabled", "probe_cfg_values_disabled", "probe_cfg_separate_ds", "probe_cfg_autorefresh", "probe_cfg_optprov", "probe_cfg_server"}, c14CommonFaults...),
 	})
 	sim.Register(&sim.Scenario{Prop: "C14", Name: "dual", Weight: 2, Run: runC14Dual,
@@ -88,7 +88,9 @@ func c14RoutingOps(f *c14Flow, r routing.Routing, u *simnet.Universe, n int, mor
 		var run func(ctx context.Context) (any, error)
 		switch kind {
 		case "putvalue":
-			run = func(ctx context.Context) (any, error) { return nil, r.PutValue(ctx, key, rankValue(2, time.Time{}, key)) }
+			run = func(ctx context.Context) (any, error) {
+				return nil, r.PutValue(ctx, key, rankValue(2, time.Time{}, key))
+			}
 		case "getvalue":
 			run = func(ctx context.Context) (any, error) { return r.GetValue(ctx, key) }
 		case "searchvalue":
